@@ -418,32 +418,39 @@ func rulesC05(c *Ctx) {
 	ruleDecryptReaders(c, ciphers, ciface)
 
 	// ---- R9 stream writers copy their chunks ---------------------------------------------------------------
+	c.Floor("R9", ruleWritersCopyChunks(c, "R9", cipherPkg), 1)
+}
+
+// ruleWritersCopyChunks: every Write(p []byte) method of the module under the
+// given package prefix keeps no reference to p.
+func ruleWritersCopyChunks(c *Ctx, rule, prefix string) int {
 	n9 := 0
-	for _, pk := range []string{cipherPkg + "/aesgcm256cfs", cipherPkg + "/extcfs", cipherPkg} {
-		for _, f := range c.P.PkgFuncs(pk) {
-			if f.Name() != "Write" || f.Signature.Recv() == nil || len(f.Params) != 2 || !isByteSlice(f.Params[1].Type()) {
-				continue
+	for _, f := range c.P.AllModuleFuncs() {
+		if f.Pkg == nil || !strings.HasPrefix(f.Pkg.Pkg.Path(), modPath+"/"+prefix) {
+			continue
+		}
+		if f.Name() != "Write" || f.Signature.Recv() == nil || len(f.Params) != 2 || !isByteSlice(f.Params[1].Type()) {
+			continue
+		}
+		n9++
+		bad := ""
+		eachInstr(f, func(_ *ssa.BasicBlock, _ int, in ssa.Instruction) {
+			st, ok := in.(*ssa.Store)
+			if !ok {
+				return
 			}
-			n9++
-			bad := ""
-			eachInstr(f, func(_ *ssa.BasicBlock, _ int, in ssa.Instruction) {
-				st, ok := in.(*ssa.Store)
-				if !ok {
+			if _, isFA := st.Addr.(*ssa.FieldAddr); !isFA {
+				if _, isIA := st.Addr.(*ssa.IndexAddr); !isIA {
 					return
 				}
-				if _, isFA := st.Addr.(*ssa.FieldAddr); !isFA {
-					if _, isIA := st.Addr.(*ssa.IndexAddr); !isIA {
-						return
-					}
-				}
-				if hasOrigin(Origins(st.Val, FlowOpts{Alias: true}), func(o Origin) bool { return o.Val == ssa.Value(f.Params[1]) }) {
-					bad = "the chunk passed to Write is kept by reference"
-				}
-			})
-			c.Check(bad == "", "R9", "stream writer "+fname(f), f.Pos(), "chunks are copied (appended) into the writer's buffer", bad+" — a caller reusing its buffer (io.Copy does) corrupts the data sealed on Close")
-		}
+			}
+			if hasOrigin(Origins(st.Val, FlowOpts{Alias: true}), func(o Origin) bool { return o.Val == ssa.Value(f.Params[1]) }) {
+				bad = "the chunk passed to Write is kept by reference"
+			}
+		})
+		c.Check(bad == "", rule, "stream writer "+fname(f), f.Pos(), "chunks are copied (appended) into the writer's buffer", bad+" — a caller reusing its buffer (io.Copy does) corrupts the stored data")
 	}
-	c.Floor("R9", n9, 1)
+	return n9
 }
 
 func isByteSlice(t types.Type) bool {
